@@ -110,7 +110,9 @@ void h_l_itr_remove(void) { common_init(); build_itr();
  * value = 0x100 + 16*key + tiebreak ; the comparator looks at the key only */
 #define V_VAL(key, tb) ((void *)(uintptr_t)(0x100 + 16 * (key) + (tb)))
 #define V_KEY(p) ((((uintptr_t)(p)) - 0x100) / 16)
-static int v_cmp(void *a, void *b) { size_t ka = V_KEY(a), kb = V_KEY(b); return ka == kb ? 0 : (ka < kb ? -1 : 1); }
+/* key 3 plays the role of a value the user comparator never reports equal, not even to itself (a disabled entry, a NaN): such an
+ * element can still be found / removed through its own pointer */
+static int v_cmp(void *a, void *b) { size_t ka = V_KEY(a), kb = V_KEY(b); if (ka == 3 || kb == 3) return 1; return ka == kb ? 0 : (ka < kb ? -1 : 1); }
 static size_t g_dlog_n; static void *g_dlog[V_K + 4];
 static void v_log_dtor(void *p) { if (g_dlog_n < V_K + 4) g_dlog[g_dlog_n] = p; g_dlog_n++; g_dtor_calls++; g_dtor_arg = p; }
 
